@@ -283,6 +283,51 @@ def templates():
     return L
 
 
+def named_type_modules(start, upper):
+    """concrete user types (not parameters) named like the generic parameters / helper types of the generated code, used as field types:
+    a template that splices the field type inside its own `fn hash<H: ..>` or next to `Educe__DebugField` would capture them"""
+    mods = []
+    n = start
+    cands = [u for u in ['H', 'V', 'M', 'Educe__RawString', 'Educe__DebugField'] if u in upper or u in ('H', 'V', 'M')]
+    for g in cands:
+        body = f'''pub mod hostile {{
+    #![allow(non_camel_case_types)]
+    use educe::Educe;
+    #[derive(Clone, Copy, Debug, PartialEq, Eq, PartialOrd, Ord, Hash, Default)]
+    pub struct {g}(pub u8);
+    pub fn fm(_v: &{g}, f: &mut ::core::fmt::Formatter<'_>) -> ::core::fmt::Result {{ f.write_str("x") }}
+    #[derive(Educe)]
+    #[educe(Debug, Clone, PartialEq, Eq, PartialOrd, Ord, Hash, Default)]
+    pub struct Ty {{ pub a: {g}, pub b: Option<{g}>, #[educe(Debug(method(fm)))] pub c: {g} }}
+    #[derive(Educe)]
+    #[educe(Debug(name = false), Clone, PartialEq, Eq, PartialOrd, Ord, Hash)]
+    pub enum En {{ A({g}, #[educe(Debug(method(fm)))] {g}), B {{ x: Option<{g}> }} }}
+}}
+pub use self::hostile::{{Ty, En, {g} as Fty}};
+''' + Harness('h_named_type', unwind=8, covers=['reached']).attrs() + '''pub fn h_named_type() {
+    let (p, q, r, s): (u8, u8, u8, u8) = (kani::any(), kani::any(), kani::any(), kani::any());
+    let a = Ty { a: Fty(p), b: Some(Fty(q)), c: Fty(1) };
+    let b = Ty { a: Fty(r), b: Some(Fty(s)), c: Fty(1) };
+    kani::cover!(true, "reached");
+    assert!((a == b) == ((p, q) == (r, s)));
+    assert!(Ord::cmp(&a, &b) == (p, q).cmp(&(r, s)));
+    let c = Clone::clone(&a);
+    assert!(c == a);
+    if (p, q) == (r, s) { assert!(rec_of(&a).same(&rec_of(&b))); }
+    let e = En::A(Fty(p), Fty(q));
+    let f = En::B { x: None };
+    assert!(e != f && Clone::clone(&e) == e && Ord::cmp(&e, &f) == Ordering::Less);
+    let z = <Ty as Default>::default();
+    assert!(z.a == Fty(0) && z.b.is_none());
+}
+'''
+        cls = ['c19:field-type-named-like-generated-helper-type'] if g == 'Educe__DebugField' else []
+        mods.append(Module(f'm{n:04d}', f'concrete field type named `{g}` (struct and enum; Debug with method, Clone, PartialEq, Ord, Hash, Default)', body,
+                           [Harness('h_named_type', unwind=8, covers=['reached'])], sample=dict(field_type=g), functions=FUNCTIONS, classes=cls))
+        n += 1
+    return mods
+
+
 def generic_modules(start, upper):
     """type / const / lifetime parameters named like identifiers of the generated code"""
     mods = []
@@ -416,6 +461,12 @@ pub struct Tu(pub u8, pub Inh);
 #[derive(Educe)]
 #[educe(Debug(name = true), Clone, PartialEq, Eq, PartialOrd, Ord, Hash, Default)]
 pub enum En { #[educe(Default)] A(Inh, u8), B { x: Inh }, C }
+#[derive(Educe)]
+#[educe(Default)]
+pub union U1 { pub a: Inh }
+#[derive(Educe)]
+#[educe(Default, Copy, Clone)]
+pub union U2 { pub w: u16, #[educe(Default)] pub b: Inh }
 fn any_en() -> En { match kani::any::<u8>() % 3 { 0 => En::A(Sym::sym(), Sym::sym()), 1 => En::B { x: Sym::sym() }, _ => En::C } }
 fn key(e: &En) -> (u8, u8, u8) { match e { En::A(i, v) => (0, i.0, *v), En::B { x } => (1, x.0, 0), En::C => (2, 0, 0) } }
 '''
@@ -435,6 +486,9 @@ fn key(e: &En) -> (u8, u8, u8) { match e { En::A(i, v) => (0, i.0, *v), En::B { 
     assert!(d.a.0 == p && d.b == q, "clone_from went through the inherent clone_from of the field type");
     let z = <St as Default>::default();
     assert!(z.a.0 == 5 && z.b == 0, "default went through the inherent default of the field type");
+    let u1 = <U1 as Default>::default();
+    let u2 = <U2 as Default>::default();
+    assert!(unsafe { u1.a.0 } == 5 && unsafe { u2.b.0 } == 5, "union default went through the inherent default of the field type");
     let t = Tu(q, Inh(p));
     let u = Clone::clone(&t);
     assert!(u.1 .0 == p && u.0 == q && t == u);
@@ -600,6 +654,8 @@ def gen(tier, seed):
     mods += prelude_typed_field_modules(n)
     n = len(mods)
     mods += field_type_inherent_modules(n)
+    n = len(mods)
+    mods += named_type_modules(n, upper)
     n = len(mods)
     mods += generic_modules(n, upper)
     for m in mods:
